@@ -43,6 +43,11 @@ def run(ctx):
     r3(ctx)
     r4(ctx)
     r5(ctx)
+    # the traffic decoder is only as good as the transform layer it routes to: C04's obligations on
+    # HttpDataTransform.transform/recover are necessary conditions of C07 as well
+    from rules import c04
+
+    ctx.import_obligations("R6", c04.run)
 
 
 def r1(ctx):
